@@ -249,3 +249,20 @@ Print Assumptions C13_source_remove.
 Print Assumptions C13_source_split_off.
 Print Assumptions C13_source_drain_bounds.
 Print Assumptions C13_source_drain_checks.
+
+(* ---- into_iter and clone (VecIter.v) ---- *)
+From BV Require Import VecIter.
+Close Scope string_scope.
+Theorem C13_into_iter : forall e v c front back, repr e v c ->
+  let r := into_iter v front back in
+  c_taken_front r ++ c_left r ++ rev (c_taken_back r) = c /\
+  c_taken_front r = firstn front c /\
+  c_taken_back r = firstn back (rev (skipn front c)).
+Proof. exact into_iter_spec. Qed.
+
+Theorem C13_clone : forall e v c next v',
+  ecfg_ok e -> repr e v c -> clone_vec e v next = VecModel.Ret v' ->
+  repr e v' (fresh_ids next (List.length c)) /\ v_len v' = v_len v.
+Proof. exact clone_spec. Qed.
+Print Assumptions C13_into_iter.
+Print Assumptions C13_clone.
